@@ -39,6 +39,12 @@ pub struct Case {
     /// carrying n bytes of free data in the manifest (pack infos far from the manifest's start)
     #[serde(default)]
     pub lowlevel_free_data: Option<u32>,
+    /// low-level assembly only: number of content packs the manifest declares before the directory pack
+    #[serde(default)]
+    pub dir_slot: u8,
+    /// low-level assembly only: Some(n) = n content packs in all (pack infos across 64 KiB)
+    #[serde(default)]
+    pub many_packs: Option<u16>,
 }
 
 pub struct C12;
@@ -96,6 +102,20 @@ impl Property for C12 {
         }
     }
 
+    /// manifests listing hundreds of packs (the pack-info array crosses 64 KiB, the size of the
+    /// buffer the check is computed through): the location of every pack in turn is rewritten
+    fn fixed_cases(_tier: Tier) -> Vec<Case> {
+        let mut v = vec![];
+        for (n, dir_slot, free) in [(300u16, 0u8, 0u32), (270, 7, 100)] {
+            let total = n as u32 + 1;
+            let history = (0..total)
+                .map(|k| Op::Set { pack: ((k * 65536 + total - 1) / total) as u16, unknown: false, loc: if k % 3 == 0 { Loc::Ascii((k % 214) as u8) } else { Loc::Utf8((k % 214) as u8) } })
+                .collect();
+            v.push(Case { packaging: Packaging::OneFile, comp: Comp::None, contents: vec![], extra: vec![], history, lowlevel_free_data: Some(free), dir_slot, many_packs: Some(n) });
+        }
+        v
+    }
+
     fn strategy(tier: Tier) -> BoxedStrategy<Case> {
         let loc = prop_oneof![
             1 => Just(Loc::Empty),
@@ -117,20 +137,21 @@ impl Property for C12 {
             packaging_strategy(),
             comp_strategy(),
             small_content_seq_strategy(),
-            prop::collection::vec((comp_strategy(), small_content_seq_strategy(), prop_oneof![3 => Just(0u8), 1 => 1u8..5]).prop_map(|(comp, contents, id_class)| ExtraPack { comp, contents, id_class }), 0..=2),
+            prop::collection::vec((comp_strategy(), small_content_seq_strategy(), prop_oneof![3 => Just(0u8), 1 => 1u8..5]).prop_map(|(comp, contents, id_class)| ExtraPack { comp, contents, id_class, place: 0 }), 0..=2),
             prop::collection::vec(op, 0..max_ops),
         )
             .prop_map(|(packaging, comp, contents, extra, history)| {
                 // one case in eight: low-level assembly with big free data (0, 30 KB or 70 KB per pack)
                 let sel = history.len() as u32 * 7 + contents.len() as u32;
-                let lowlevel_free_data = if sel % 8 == 3 { Some([0u32, 30_000, 70_000][(sel / 8 % 3) as usize]) } else { None };
-                Case { packaging, comp, contents, extra, history, lowlevel_free_data }
+                let lowlevel_free_data = if sel % 5 == 3 { Some([0u32, 30_000, 70_000][(sel / 5 % 3) as usize]) } else { None };
+                let dir_slot = (sel / 15 % 4) as u8;
+                Case { packaging, comp, contents, extra, history, lowlevel_free_data, dir_slot, many_packs: None }
             })
             .boxed()
     }
 
     fn required_classes(_tier: Tier) -> Vec<&'static str> {
-        vec!["manifest-at-offset>0", "manifest-standalone", "rewrite-twice-same-pack", "utf8-at-limit", "unknown-uuid", "relocate-directory-pack", "restore-original", "packs-listed:4", "lowlevel-container", "pack-infos-beyond-64KiB"]
+        vec!["manifest-at-offset>0", "manifest-standalone", "rewrite-twice-same-pack", "utf8-at-limit", "unknown-uuid", "relocate-directory-pack", "restore-original", "packs-listed:4", "lowlevel-container", "pack-infos-beyond-64KiB", "directory-pack-not-declared-first", "many-packs"]
     }
 
     fn run(case: &Case, ctx: &Ctx) -> CaseResult {
@@ -156,7 +177,16 @@ impl Property for C12 {
                     packs.push((e.comp, e.contents.clone()));
                 }
                 packs.push((Comp::None, vec![]));
-                build_lowlevel(&dir, "a.jbk", &packs, n as usize, &spec.dir)?
+                if let Some(many) = case.many_packs {
+                    info.class("many-packs");
+                    while packs.len() < many as usize {
+                        packs.push((Comp::None, vec![]));
+                    }
+                }
+                if case.dir_slot > 0 {
+                    info.class("directory-pack-not-declared-first");
+                }
+                build_lowlevel(&dir, "a.jbk", &packs, n as usize, &spec.dir, case.dir_slot as usize)?
             }
         };
         let path = built.main_path.clone();
